@@ -473,7 +473,7 @@ fn events_mirror_the_wire_exactly() {
 /// The Verus units cstate4 / cstate5 ASSUME a contract for the `fixedbitset` crate (contains / insert / set over a
 /// Seq<bool> view, `insert` / `set` panic outside the capacity).  This checks the assumed contract against the
 /// crate as compiled, exhaustively for small capacities and with probes at the real table sizes.
-// @native props=C02,C07,C10 tier=quick fn=fixedbitset::FixedBitSet::{contains,insert,set,len,with_capacity}
+// @native props=C02,C07,C10 tier=quick fn=fixedbitset::FixedBitSet::{with_capacity,contains,insert,set,len}
 #[test]
 fn fixedbitset_agrees_with_the_assumed_contract() {
     let name = "fixedbitset::FixedBitSet#assumed_contract_of_contains_insert_set";
@@ -490,6 +490,10 @@ fn fixedbitset_agrees_with_the_assumed_contract() {
                 let script: Vec<usize> = (0..len).map(|k| ((code / (nops as u64).pow(k)) % nops as u64) as usize).collect();
                 let mut b = FixedBitSet::with_capacity(cap);
                 let mut model = vec![false; cap];
+                if b.len() != cap || b.count_ones(..) != 0 || (0..cap + 3).any(|j| b.contains(j)) {
+                    fail = Some(format!("input=[capacity={}] detail=[with_capacity does not give {} clear bits]", cap, cap));
+                    break 'outer;
+                }
                 for op in script.iter() {
                     let (kind, i) = (op / (cap + 1), op % (cap + 1));
                     let mut b2 = b.clone();
